@@ -23,6 +23,31 @@ structure DState where
   lim : Limits
   hasSub : Bool
 
+/-! ### arm tags: every comparison of the three functions below / at / above its threshold -/
+
+def cmp3 (name : String) (a b : Nat) : String :=
+  if a < b then s!"{name}:lt" else if a = b then s!"{name}:eq" else s!"{name}:gt"
+
+def fcmp3 (name : String) (a b : Nat) : String :=
+  if isNaN a then s!"{name}:nan" else if isNaN b then s!"{name}:limit-nan"
+  else if flt a b then s!"{name}:lt" else if feq a b then s!"{name}:eq" else s!"{name}:gt"
+
+def reviseTags (l : Limits) (i k life : Nat) : List String :=
+  let k' := reviseKa l k
+  [fcmp3 "interval-vs-min" i l.minPub, cmp3 "ka-vs-max" k l.maxKa, if k = 0 then "ka:zero" else "ka:nonzero"]
+  ++ (if k' * 3 ≥ 2 ^ 32 then ["life:overflow"] else
+        [cmp3 "life-vs-3ka" life (k' * 3), cmp3 "life-vs-max" life l.maxLife])
+
+def sampTags (l : Limits) (x : Nat) : List String :=
+  [fcmp3 "samp-vs-zero" x zero, fcmp3 "samp-vs-min" x l.minSamp]
+  ++ (if x = 0x8000000000000000 then ["samp:negative-zero"] else [])
+  ++ (if x / 2 ^ 52 % 2048 = 2047 ∧ x % 2 ^ 52 = 0 then ["samp:infinite"] else [])
+
+def queueTags (l : Limits) (n : Nat) : List String :=
+  [if n = 0 then "queue:0" else if n = 1 then "queue:1" else "queue:2+", cmp3 "queue-vs-max" n l.maxQueue]
+
+def tagStr (tags : List String) : String := " @@ " ++ ",".intercalate tags.eraseDups
+
 def dstep (s : DState) (toks : List String) : DState × String :=
   match toks with
   | ["reset", a, b, c, d, e, q] =>
@@ -35,26 +60,28 @@ def dstep (s : DState) (toks : List String) : DState × String :=
     if op = "rev" ∨ op = "create" ∨ op = "modify" then
       match parseF? i, k.toNat?, l.toNat? with
       | some i, some k, some l =>
-        if op = "modify" ∧ !s.hasSub then (s, "err nosub")
+        if op = "modify" ∧ !s.hasSub then (s, "err nosub" ++ tagStr ["op:modify-nosub"])
         else
+          let tags := s!"op:{op}" :: reviseTags s.lim i k l
           match revise s.lim i k l with
           | some (i', k', l') =>
-            ({ s with hasSub := s.hasSub || op = "create" }, s!"ok {showF i'} {k'} {l'}")
-          | none => (s, "panic")
+            ({ s with hasSub := s.hasSub || op = "create" }, s!"ok {showF i'} {k'} {l'}" ++ tagStr tags)
+          | none => (s, "panic" ++ tagStr tags)
       | _, _, _ => (s, "bad-op")
     else (s, "bad-op")
   | ["samp", x] =>
     match parseF? x with
-    | some x => (s, "ok " ++ showF (sanitizeSampling s.lim x))
+    | some x => (s, "ok " ++ showF (sanitizeSampling s.lim x) ++ tagStr ("op:samp" :: sampTags s.lim x))
     | none => (s, "bad-op")
   | ["queue", n] =>
     match n.toNat? with
-    | some n => (s, s!"ok {sanitizeQueue s.lim n}")
+    | some n => (s, s!"ok {sanitizeQueue s.lim n}" ++ tagStr ("op:queue" :: queueTags s.lim n))
     | none => (s, "bad-op")
   | [op, x, n] =>
     if op = "item" ∨ op = "mitem" ∨ op = "moditem" ∨ op = "mmitem" then
       match parseF? x, n.toNat? with
-      | some x, some n => (s, s!"ok {showF (sanitizeSampling s.lim x)} {sanitizeQueue s.lim n}")
+      | some x, some n => (s, s!"ok {showF (sanitizeSampling s.lim x)} {sanitizeQueue s.lim n}"
+          ++ tagStr (s!"op:{op}" :: (sampTags s.lim x ++ queueTags s.lim n)))
       | _, _ => (s, "bad-op")
     else (s, "bad-op")
   | _ => (s, "bad-op")
